@@ -95,6 +95,9 @@ func (r *phRun) body(a map[string]interface{}) *vhVAA {
 		v.EChain = uint16(phGovChain)
 		v.Emitter = phGovEmitter
 	}
+	if vhBool(a, "govaddr") { // the governance emitter's address on another chain: NOT the governance emitter
+		v.Emitter = phGovEmitter
+	}
 	v.Nonce = binary.BigEndian.Uint32(hd[0:4])
 	v.Ts = 1600000000 + uint32(binary.BigEndian.Uint16(hd[4:6]))
 	if ts, ok := a["ts"]; ok {
